@@ -533,12 +533,14 @@ class C13(Base):
         for nm in long_names:
             for lvl in (0, 3, 4, 5, 6, 255):
                 body = bytes([len(nm) >> 8, len(nm) & 255]) + nm + bytes([lvl, 2, 0, 10, 0, 0, 0, 1, 99, 0, 0])
+                tiny = body[:2 + len(nm) + 1]            # the frame ends right after the level byte
                 for fam in ('v3', 'v5'):
                     for sfx in (b'', b'\xc0\x00\xd0\x00'):
-                        c = 'dec %s %s' % (fam, pk.hx(bytes([0x10]) + pk.vbi(len(body)) + body + sfx))
-                        self.meta[c] = ('frame', nm, lvl)
-                        cs.append(c)
-                        hist(dist, 'connect-bad-name')
+                        for bd in (body, tiny):
+                            c = 'dec %s %s' % (fam, pk.hx(bytes([0x10]) + pk.vbi(len(bd)) + bd + sfx))
+                            self.meta[c] = ('frame', nm, lvl)
+                            cs.append(c)
+                            hist(dist, 'connect-bad-name')
         # the refusal needs the protocol name and level only: a CONNECT of the other family cut anywhere after the level
         for c0, (fam, p, n) in list(self.meta.items()):
             if not c0.startswith('cross ') or n > 400 or rng.random() < 0.5:
@@ -602,7 +604,13 @@ class C13(Base):
                     if not r.startswith('ok connect %d ' % lvl):
                         return '%s %s decoder on a native CONNECT (level %d): %s' % (fam, fe, lvl, r[:100])
                 elif r != want:
-                    return '%s %s decoder on CONNECT %s/%d: %s, expected %s' % (fam, fe, nm, lvl, r[:100], want)
+                    return '%s %s decoder on CONNECT %s/%d: %s, expected %s' % (fam, fe, nm[:20], lvl, r[:100], want[:100])
+            if want is not None and f.get('aused', '').isdigit():
+                b = bytes.fromhex(t[2][1:])
+                end = frame_info(b)[0] + 2 + len(nm) + 1
+                if int(f['aused']) > end:
+                    return ('%s async decoder consumed %s bytes before refusing the protocol; name and level end at byte %d'
+                            % (fam, f['aused'], end))
             return None
         src, p, n = m
         lvl = p[1]
